@@ -41,7 +41,8 @@ from .. import rp66_ref as ref
 LEVEL = "other"
 EXPLANATION = ("Decides the structural clauses that are necessary for the round trip: record numbering and slot order, "
                "byte-order normalisation on every path to the chunk dtype plus exactly one copying swap per slot, the "
-               "dtype/code/size table against RP66, the channel-order guard, and chunk tiling (all n, all chunk sizes). "
+               "dtype/code/size table against RP66, the channel-order guard, chunk tiling (all n, all chunk sizes), and that "
+               "the data handed to add_channel are kept unconverted (the cast is applied at write time). "
                "Bit patterns after numpy casts and the decoded values are not decided.")
 
 
